@@ -402,17 +402,16 @@ structure Benign (e e' : Entry) : Prop where
   done : chanDone e → chanDone e' ∨ e'.ret ≠ none
   fwd : e'.fwd = e.fwd
   got : e'.got = e.got
-  reqId : e'.reqId = e.reqId
   payload : e'.payload = e.payload
 
 theorem Benign.refl (e : Entry) : Benign e e :=
-  ⟨Iff.rfl, id, id, Or.inl, rfl, rfl, rfl, rfl⟩
+  ⟨Iff.rfl, id, id, Or.inl, rfl, rfl, rfl⟩
 
 theorem Benign.abandon (e : Entry) (err : Err) : Benign e (e.abandon err) := by
-  refine ⟨?_, fun h => h.abandon err, ?_, ?_, ?_, ?_, ?_, ?_⟩ <;> unfold Entry.abandon <;> split <;> simp_all
+  refine ⟨?_, fun h => h.abandon err, ?_, ?_, ?_, ?_, ?_⟩ <;> unfold Entry.abandon <;> split <;> simp_all
 
 theorem Benign.wake (e : Entry) : Benign e e.wake := by
-  refine ⟨?_, fun h => h.wake, ?_, ?_, ?_, ?_, ?_, ?_⟩ <;> unfold Entry.wake <;> split <;> try simp_all
+  refine ⟨?_, fun h => h.wake, ?_, ?_, ?_, ?_, ?_⟩ <;> unfold Entry.wake <;> split <;> try simp_all
   all_goals (split <;> simp_all [chanDone])
 
 end CGV.BatchMux
